@@ -14,7 +14,7 @@ the state tree (`serialize`), so "rebuild = fresh render" is a statement by stru
 |------------------------------|------------------------------------------------------------------------------------------|
 | `View.text/unit/elem/seq`    | `String`, `()`, `HtmlElement<E, At, Ch>`, tuples (tachys/src/view/{strings,tuples}.rs, html/element/mod.rs) |
 | `View.dynText e`             | `move || v.to_string()`: `impl Render for F: ReactiveFunction` (tachys/src/reactive_graph/mod.rs) → `RenderEffect::new(|prev| rebuild-or-build)`; `String::rebuild` = `set_text` iff the string changed |
-| `Attr.dyn / cls / sty`       | `impl AttributeValue for F` (reactive_graph/mod.rs), `impl IntoClass for (&str, F)` (reactive_graph/class.rs), `impl IntoStyleValue for F` (reactive_graph/style.rs): a `RenderEffect` whose state is the last value; the DOM call happens iff the value changed |
+| `Attr.dyn / cls / sty`       | `impl AttributeValue for F` (reactive_graph/mod.rs), `impl IntoClass for (&str, F)` (reactive_graph/class.rs), `impl IntoStyleValue for F` (reactive_graph/style.rs): a `RenderEffect` whose state is the last value; the DOM call happens iff the value changed.  The closures of `dyn` and `sty` return an `Option` (`None` at the value 0: `impl AttributeValue for Option<V>`, `impl IntoStyleValue for Option<..>`): `AOut.plain n (.int 0)` / `AOut.sty n (.px 0)` stand for "no such attribute / declaration" (the driver prints them so) |
 | `View.either c a b`          | `move || if c { Either::Left(a) } else { Either::Right(b) }`: `Either::rebuild` (tachys/src/view/either.rs): same side → `rebuild` the branch, other side → `build`, `insert_before_this`, `unmount` |
 | `View.show c a b`            | leptos `Show` (leptos/src/show.rs): `ArcMemo::new(when)` + `move || match memo.get() { true => Left(children()), false => Right(fallback.run()) }` |
 | `View.forKeyed sel lists`    | leptos `For` (leptos/src/for_loop.rs): `move || keyed(each(), key, children)`, rows `<li>{k}</li>`; the list update is `Leptos.Keyed.rebuild` (tachys/src/view/keyed.rs) |
@@ -356,14 +356,15 @@ def listAt (lists : List (List Nat)) (v : Int) : List Nat :=
 def buildAttr (st : St) : Attr → AState × St × Nat
   | .stat n v => (.stat n v, st, 1)
   | .dyn n x =>
+    -- the closure returns an `Option`: `None` at 0 (`Option::build` of `None` makes no DOM call)
     let (e, v, st) := newEff st (st.res x)
-    (.dyn e n x v, st.spawn e, 1)
+    (.dyn e n x v, st.spawn e, if v = 0 then 0 else 1)
   | .cls n x =>
     let (e, v, st) := newEff st (st.res x)
     (.cls e n x (v != 0), st.spawn e, if v != 0 then 1 else 0)
   | .sty n x =>
     let (e, v, st) := newEff st (st.res x)
-    (.sty e n x v, st.spawn e, 1)
+    (.sty e n x v, st.spawn e, if v = 0 then 0 else 1)
 
 def buildAttrs : List Attr → St → List AState × St × Nat
   | [], st => ([], st, 0)
